@@ -325,11 +325,15 @@ pub fn run(tier: &str) -> i32 {
     rep.bound(if thorough { "configurations: 4 (one player/one combo; two players x two combos with flop-blocked and mutually blocking combos; two further flops)" } else { "configurations: one player, one combo (thorough adds three more, with player-vs-player blocking and other flops)" });
     rep.bound("scope ends other than valid positions and the terminal (48,49) are outside the property");
     rep.assume("reference = the unscoped run of the same real evaluator, itself equal to M-deals (checked here, and over many more configurations by C02)");
+    wide_chains(&mut rep, thorough);
     rep.finish()
 }
 
 pub fn replay(case: &Value) -> Value {
     let cfg = Config::from_json(&case["config"]);
+    if let Some(n) = case.get("wide_chain_positions").and_then(|x| x.as_u64()) {
+        return json!({"config": cfg.key(), "positions": n, "discrepancy": wide_chain_one(&cfg, n as usize)});
+    }
     let ranges = cfg.hand_ranges();
     let deck = deck_without(&cfg.flop);
     let mut deckpos = [255u8; 52];
@@ -352,4 +356,65 @@ pub fn replay(case: &Value) -> Value {
         _ => None,
     };
     json!({"config": cfg.key(), "scopes": case["scopes"], "unscoped": summarize(&full), "scoped": summarize(&got), "expected_showdowns_in_window": expected})
+}
+
+
+fn wide_chain_one(c: &Config, npos: usize) -> Option<Value> {
+    let pl = positions();
+    let _h = vlib::report::horizon("C04", "termination", format!("{} joint scope over positions 0..{} vs chain", c.key(), npos), json!({"config": c.to_json(), "wide_chain_positions": npos}), 2 * npos as u64 * c.pi().max(1));
+    let cap = npos as u64 * c.pi() + 16;
+    let sig = |run: &ImplRun| -> Vec<(usize, u128, u32)> {
+        let mut v: Vec<(usize, u128, u32)> = run.showdowns.iter().map(|sd| (sd.pos_unordered().unwrap_or(9999), sd.combo_key(), sd.prob.to_bits())).collect();
+        v.sort();
+        v
+    };
+    let (t0, r0) = pl[0];
+    let (t1, r1) = pl[npos];
+    let joint = match run_impl(c, Some((t0, r0, t1, r1)), 2, cap) {
+        Ok(r) => r,
+        Err(e) => return Some(json!({"joint_scope_panic": e})),
+    };
+    if !joint.stays_exhausted {
+        return Some(json!({"problem": "the joint scope yields again after None"}));
+    }
+    let mut pieces: Vec<(usize, u128, u32)> = vec![];
+    for p in 0..npos {
+        let (a, b) = pl[p];
+        let (c2, d2) = pl[p + 1];
+        match run_impl(c, Some((a, b, c2, d2)), 2, cap) {
+            Ok(r) => {
+                if !r.stays_exhausted {
+                    return Some(json!({"problem": format!("the scope of position {} yields again after None", p)}));
+                }
+                pieces.extend(sig(&r));
+            }
+            Err(e) => return Some(json!({"piece": p, "panic": e})),
+        }
+    }
+    pieces.sort();
+    let j = sig(&joint);
+    if j != pieces {
+        let missing = pieces.iter().filter(|x| j.binary_search(x).is_err()).count();
+        let extra = j.iter().filter(|x| pieces.binary_search(x).is_err()).count();
+        return Some(json!({"joint_scope_showdowns": j.len(), "chained_one_position_scopes": pieces.len(), "in_the_chain_but_not_in_the_joint_run": missing, "in_the_joint_run_but_not_in_the_chain": extra}));
+    }
+    None
+}
+
+/// a scope spanning several positions against the chain of one-position scopes that tile it, on wide tables (up to
+/// 65,536 deals per position): whatever one iterator carries from deal to deal (counters, stamps, caches) must not
+/// make the joint run differ from the pieces
+fn wide_chains(rep: &mut Report, thorough: bool) {
+    let f = [8u8, 26, 49];
+    let cfgs = stamp_wrap_configs(f, false);
+    let npos = if thorough { 6usize } else { 3 };
+    let outs = par_map(cfgs.len(), |i| wide_chain_one(&cfgs[i], npos));
+    let mut n = 0u64;
+    for (i, o) in outs.into_iter().enumerate() {
+        n += 1;
+        if let Some(b) = o {
+            rep.violation(Violation { key: format!("{} joint scope over positions 0..{} vs chain", cfgs[i].key(), npos), sub: "wide-chains".into(), case: json!({"config": cfgs[i].to_json(), "wide_chain_positions": npos}), expected: json!("the same showdowns from one scope over the positions as from the chain of one-position scopes"), observed: b });
+        }
+    }
+    rep.sub("wide-chains", "the stamp-wrap tables (two players, every factorisation of 254..256 and 65534..65536 into range sizes, one combo with cards of its own): one scope over the first 3 (thorough: 6) positions against the chain of one-position scopes, up to 65,536 deals per position", n, n, false, json!({}));
 }
